@@ -206,6 +206,27 @@ class Observer:
                         chk.nontrivial((variant, cid, si))
 
 
+def canary_fires(variant, wrapper):
+    """run the driver's deliberate defect under the tool and require the report parser to see the tool's report"""
+    import subprocess
+    kind, tool = {"asan": ("oob", "asan"), "tsan": ("race", "tsan"), "memcheck": ("uninit", "memcheck"), "miri": ("oob", "miri")}[variant]
+    env = dict(os.environ)
+    env.update(vrun.SANITIZER_ENV.get(variant, {}))
+    env["RUST_BACKTRACE"] = "0"
+    if variant == "miri":
+        cmd, cwd = ["cargo", "+nightly", "miri", "run", "-q", "--", "canary", kind], vrun.HARNESS
+        env["CARGO_TARGET_DIR"] = os.path.join(vrun.TARGET, "miri")
+        env["CARGO_NET_OFFLINE"] = "true"
+    else:
+        binary = os.path.join(vrun.TARGET, vrun.VARIANTS["plain" if variant == "memcheck" else variant][2])
+        cmd, cwd = (wrapper or []) + [binary, "canary", kind], None
+    try:
+        p = subprocess.run(cmd, cwd=cwd, env=env, stdout=subprocess.PIPE, stderr=subprocess.STDOUT, text=True, timeout=1800)
+    except subprocess.TimeoutExpired:
+        return False
+    return any(r["tool"] == tool for r in vrun.sanitizer_reports(p.stdout or "", "canary"))
+
+
 def run(chk):
     thorough = chk.tier == "thorough"
     rng = chk.rng
@@ -214,13 +235,14 @@ def run(chk):
                 "deterministic executor (4 schedule policies) and the production thread pool, Parquet (4 encodings x 4 codecs) and CSV reads under 1-byte / random / Pending read chunking, and "
                 "samples of the workloads of C04 C05 C06 C07 C08 C10 C13 C14 C17 C20 re-run on the asan build; tsan build: own corpus on the thread pool with 2-16 threads and injected pauses, every case "
                 "repeated; miri (thorough tier): tiny cases of the same corpus incl. the Parquet/CSV readers; memcheck: own corpus on the plain build. A report of any tool or a failed assertion inside /repo/crates "
-                "refutes. distinct non-trivial = distinct (build, case, statement) that completed under instrumentation")
+                "refutes. Before a build is used, a deliberate defect in the driver (`vdrive canary`: heap overflow / data race / uninitialised read) must be reported by the tool and recognised by the report parser. distinct non-trivial = distinct (build, case, statement) that completed under instrumentation")
     chk.assumptions = ["absence of reports covers only the executions produced; red-zone tools miss intra-object and far out-of-bounds accesses",
                        "LeakSanitizer is off (leaks are not part of the property); Miri runs with permissive provenance (int-to-pointer casts in the `sdd` dependency)",
                        "Miri cannot cross the zstd-sys FFI: ZSTD-compressed files are exercised under asan/memcheck only"]
     obs = Observer(chk)
     d = vrun.tmpdir("c16")
     variants_built = {}
+    canaries = {}
     def use(variant, **ov):
         if variant not in ("memcheck",) and variant not in variants_built:
             t0 = time.time()
@@ -232,7 +254,14 @@ def run(chk):
                 variants_built[variant] = None
         vrun.OVERRIDE.update({"variant": "plain" if variant == "memcheck" else variant, "max_cases": None, "observer": obs, "wrapper": None, "env": None, "salt": str(chk.seed), "wall_s": None})
         vrun.OVERRIDE.update(ov)
-        return variants_built.get(variant, True) is not None
+        if variants_built.get(variant, True) is None:
+            return False
+        if variant not in canaries:
+            canaries[variant] = canary_fires(variant, ov.get("wrapper"))
+            chk.extra.setdefault("canaries", {})[variant] = canaries[variant]
+            if not canaries[variant]:
+                chk.inconc(f"{variant}: the deliberate defect of `vdrive canary` was not reported - instrumentation not functioning, executions under it are not counted")
+        return canaries[variant]
     try:
         # ---------------- asan
         if use("asan"):
